@@ -14,6 +14,7 @@ package main
 import (
 	"bytes"
 	"context"
+	"crypto/sha256"
 	"encoding/hex"
 	"encoding/json"
 	"errors"
@@ -110,7 +111,7 @@ type world struct {
 	built bool
 }
 
-func (w *world) real(p string) string  { return w.T + strings.TrimPrefix(p, canonT) }
+func (w *world) real(p string) string { return w.T + strings.TrimPrefix(p, canonT) }
 func (w *world) canon(p string) string {
 	if p == w.T || strings.HasPrefix(p, w.T+"/") {
 		return canonT + strings.TrimPrefix(p, w.T)
@@ -370,15 +371,15 @@ func classify(err error) string {
 }
 
 type c16Case struct {
-	Op        string  `json:"op"`
-	Name      string  `json:"name_quoted,omitempty"`
-	Depth     int     `json:"depth,omitempty"`
-	Root      string  `json:"root,omitempty"`
-	Src       string  `json:"src,omitempty"`
-	Overwrite bool    `json:"overwrite,omitempty"`
-	Extras    []entry `json:"extras,omitempty"`
+	Op        string   `json:"op"`
+	Name      string   `json:"name_quoted,omitempty"`
+	Depth     int      `json:"depth,omitempty"`
+	Root      string   `json:"root,omitempty"`
+	Src       string   `json:"src,omitempty"`
+	Overwrite bool     `json:"overwrite,omitempty"`
+	Extras    []entry  `json:"extras,omitempty"`
 	Entries   []string `json:"entries,omitempty"`
-	Format    string  `json:"format,omitempty"`
+	Format    string   `json:"format,omitempty"`
 	// observation
 	Err     string   `json:"obs_err"`
 	Meta    string   `json:"obs_meta,omitempty"`
@@ -545,7 +546,7 @@ func runC16(a *Args) error {
 	}
 	verifiers := map[mgrKey]notation.Verifier{}
 	type xKey struct {
-		d, v            int
+		d, v           int
 		hasPM, trusted bool
 	}
 	verifiersX := map[xKey]notation.Verifier{}
@@ -1003,7 +1004,7 @@ func runC16(a *Args) error {
 			for _, mn := range []string{"fresh", "notation-fresh", "good"} {
 				installCase(d, 0, true, []srcFile{{"notation-notation-" + mn, file(true, mn, 7)}}, false, ow)
 				installCase(d, 0, false, []srcFile{{"notation-notation-" + mn, file(true, mn, 7)}}, false, ow)
-				installCase(d, 0, true, []srcFile{{"notation-notation-" + mn, file(true, "notation-" + mn, 7)}}, false, ow)
+				installCase(d, 0, true, []srcFile{{"notation-notation-" + mn, file(true, "notation-"+mn, 7)}}, false, ow)
 				installCase(d, 0, true, []srcFile{{"xnotation-" + mn, file(true, mn, 7)}}, false, ow)
 				installCase(d, 0, false, []srcFile{{"xnotation-" + mn, file(true, mn, 7)}, {"lib.so", node{}}}, false, ow)
 				installCase(d, 0, true, []srcFile{{"Notation-" + mn, file(true, mn, 7)}}, false, ow)
@@ -1194,11 +1195,11 @@ func runC16(a *Args) error {
 			run(getStep) // source gone: still the installed copy
 			putSource(7)
 			run(uninstallStep)
-			run(getStep)     // removed: not found, nothing runs (the source exists)
+			run(getStep) // removed: not found, nothing runs (the source exists)
 			run(verifyStep)
 			run(installStep) // version 7
 			putSource(9)
-			run(getStep) // the installed copy (version 7), not the source
+			run(getStep)     // the installed copy (version 7), not the source
 			run(installStep) // upgrade to 9 (or overwrite)
 			putSource(3)
 			run(getStep)
@@ -1208,6 +1209,254 @@ func runC16(a *Args) error {
 	}
 	for k := 0; k < 8; k++ {
 		history(1+k%4, (k/4)%2, k%2 == 0, (k/2)%2 == 0)
+	}
+
+	// ---- near-name siblings: ONE root holding the operated plugin X and, next to it, entries whose
+	// names are related to X (X.old, X.new, X.tmp, X.bak, X~, .X, X-1, "X " , X.exe, notation-X, a
+	// prefix of X and an extension X-bar), each a real plugin (kind 0), a stray file (kind 1) or a
+	// symbolic link (kind 2). Install (fresh, upgrade, refused downgrade / overwrite), Get,
+	// Uninstall, List on X; every step is a case on the world as it is (model: the whole sandbox
+	// diff), plus a FULL-ROOT frame check on the Go side: kind, mode and content hash of everything
+	// under the plugin root outside <root>/X must be the same before and after the step.
+	sibSeq := 0
+	siblingHistory := func(d, v int, fromFile, ow bool, kind int) {
+		sibSeq++
+		name := fmt.Sprintf("sx%d", sibSeq)
+		installJobs = append(installJobs, func() {
+			wd := worlds[d]
+			wname, rname := fmt.Sprintf("W%d", d), fmt.Sprintf("R%d_%d", d, v)
+			mgr, rr := mgrFor(wd, v)
+			if !wd.built || wd.dirty {
+				wd.build()
+			}
+			tm := map[string]node{}
+			for _, e := range wd.tmpl {
+				tm[e.Path] = e.N
+			}
+			sibs := []string{name + ".old", name + ".new", name + ".tmp", name + ".bak", name + "~", "." + name, name + "-1",
+				name + " ", name + ".exe", "notation-" + name, name[:len(name)-1], name + "-bar", strings.ToUpper(name)}
+			for i, sb := range sibs {
+				switch {
+				case kind == 0 || (kind == 3 && i%3 == 0):
+					for _, e := range []entry{{wd.root + "/" + sb, node{Dir: true}}, {wd.root + "/" + sb + "/notation-" + sb, file(true, sb, 4)},
+						{wd.root + "/" + sb + "/lib.so", node{}}} {
+						if err := wd.writeEntry(e); err != nil {
+							panic(err)
+						}
+					}
+				case kind == 1 || (kind == 3 && i%3 == 1):
+					if err := wd.writeEntry(entry{wd.root + "/" + sb, node{}}); err != nil {
+						panic(err)
+					}
+				default:
+					if err := os.Symlink(wd.real(wd.root+"/other"), wd.real(wd.root+"/"+sb)); err != nil {
+						panic(err)
+					}
+				}
+			}
+			srcFile := srcDir + "/notation-" + name
+			src := srcDir
+			if fromFile {
+				src = srcFile
+			}
+			putSource := func(ver int) {
+				os.RemoveAll(wd.real(srcDir))
+				es := []entry{{srcDir, node{Dir: true}}, {srcFile, file(true, name, ver)}}
+				if !fromFile {
+					es = append(es, entry{srcDir + "/lib.so", node{}})
+				}
+				for _, e := range es {
+					if err := wd.writeEntry(e); err != nil {
+						panic(err)
+					}
+				}
+			}
+			// frame: everything under the plugin root except <root>/<name>
+			own := wd.real(wd.root + "/" + name)
+			frame := func() map[string]string {
+				out := map[string]string{}
+				filepath.WalkDir(wd.real(wd.root), func(p string, de fs.DirEntry, err error) error {
+					if err != nil {
+						out[p] = "error"
+						return nil
+					}
+					if p == own {
+						return fs.SkipDir
+					}
+					li, err := os.Lstat(p)
+					if err != nil {
+						out[p] = "error"
+						return nil
+					}
+					desc := li.Mode().String()
+					switch {
+					case li.Mode().IsRegular():
+						b, _ := os.ReadFile(p)
+						desc += " " + fmt.Sprintf("%x", sha256.Sum256(b))
+					case li.Mode()&os.ModeSymlink != 0:
+						t, _ := os.Readlink(p)
+						desc += " -> " + t
+					}
+					out[wd.canon(p)] = desc
+					return nil
+				})
+				return out
+			}
+			step := func(c *c16Case, opTerm string, strs func() []string, f func() (string, string)) bool {
+				my := id
+				id++
+				before := wd.snapshot()
+				var extras []entry
+				for p, n := range before {
+					if t, ok := tm[p]; !ok || !t.eq(n) {
+						extras = append(extras, entry{p, n})
+					}
+				}
+				for p := range tm {
+					if _, ok := before[p]; !ok && p != canonTop {
+						return false
+					}
+				}
+				sort.Slice(extras, func(i, j int) bool { return extras[i].Path < extras[j].Path })
+				os.Remove(wd.marker())
+				fr0 := frame()
+				errc, metaT := f()
+				fr1 := frame()
+				after := wd.snapshot()
+				var o fsObs
+				o.exec = wd.readMarker()
+				for p := range before {
+					if _, ok := after[p]; !ok {
+						o.removed = append(o.removed, p)
+					}
+				}
+				for p, n := range after {
+					if b, ok := before[p]; !ok || !b.eq(n) {
+						o.written = append(o.written, entry{p, n})
+					}
+				}
+				sort.Strings(o.removed)
+				sort.Slice(o.written, func(i, j int) bool { return o.written[i].Path < o.written[j].Path })
+				if w.Want(my) {
+					c.Depth, c.Root, c.Extras = d, rootSpell(wd, v), extras
+					c.Op = "sibling-" + c.Op
+					var diff []string
+					for p, a0 := range fr0 {
+						if a1, ok := fr1[p]; !ok {
+							diff = append(diff, "gone: "+p)
+						} else if a1 != a0 {
+							diff = append(diff, "changed: "+p)
+						}
+					}
+					for p := range fr1 {
+						if _, ok := fr0[p]; !ok {
+							diff = append(diff, "new: "+p)
+						}
+					}
+					sort.Strings(diff)
+					if len(diff) > 0 {
+						w.ImplViolation(my, fmt.Sprintf("operation on plugin %q changed the plugin root outside <root>/%s: %s", name, name, Short(strings.Join(diff, "; "), 400)), c, "")
+					}
+					var ss []string
+					if strs != nil {
+						ss = strs()
+					}
+					emit(my, c, wd, wname, rname, extras, opTerm, errc, metaT, o, ss, true)
+				}
+				return true
+			}
+			getStep := func(nm string) func() bool {
+				return func() bool {
+					c := &c16Case{Op: "get", Name: strconv.Quote(nm)}
+					return step(c, CApp("OGet", CStr(nm)), nil, func() (string, string) {
+						cctx, cancel := context.WithTimeout(ctx, 20*time.Second)
+						defer cancel()
+						p, err := mgr.Get(cctx, nm)
+						if err != nil {
+							c.ErrText = Short(err.Error(), 200)
+							return classify(err), "MNone"
+						}
+						md, err := p.GetMetadata(cctx, &pluginfw.GetMetadataRequest{})
+						if err != nil {
+							c.ErrText = Short(err.Error(), 200)
+							return "ENone", "MErr"
+						}
+						ver, _ := strconv.Atoi(strings.TrimPrefix(md.Version, "1.0."))
+						return "ENone", CApp("MOk", CN(int64(ver)))
+					})
+				}
+			}
+			installStep := func() bool {
+				c := &c16Case{Op: "install", Name: strconv.Quote("notation-" + name), Src: src, Overwrite: ow}
+				return step(c, CApp("OInstall", CStr(src), CBool(ow)), nil, func() (string, string) {
+					cctx, cancel := context.WithTimeout(ctx, 30*time.Second)
+					defer cancel()
+					_, _, err := mgr.Install(cctx, plugin.CLIInstallOptions{PluginPath: wd.real(src), Overwrite: ow})
+					if err != nil {
+						c.ErrText = Short(err.Error(), 200)
+					}
+					return classify(err), "MNone"
+				})
+			}
+			uninstallStep := func() bool {
+				c := &c16Case{Op: "uninstall", Name: strconv.Quote(name)}
+				return step(c, CApp("OUninstall", CStr(name)), nil, func() (string, string) {
+					err := mgr.Uninstall(ctx, name)
+					if err != nil {
+						c.ErrText = Short(err.Error(), 200)
+					}
+					return classify(err), "MNone"
+				})
+			}
+			listStep := func() bool {
+				ents, kinds := readEntries(rr)
+				var got []string
+				c := &c16Case{Op: "list", Entries: kinds}
+				return step(c, CApp("OList", "true", ents), func() []string { return got }, func() (string, string) {
+					var err error
+					got, err = mgr.List(ctx)
+					return classify(err), "MNone"
+				})
+			}
+			ok := true
+			run := func(f func() bool) {
+				if ok {
+					ok = f()
+				} else {
+					id++ // keep ids stable
+				}
+			}
+			putSource(5)
+			run(installStep) // fresh
+			run(listStep)
+			run(getStep(name))
+			putSource(7)
+			run(installStep) // upgrade (or overwrite)
+			run(getStep(name))
+			if kind == 0 {
+				run(getStep(name + ".old")) // the neighbour is still a working plugin
+			} else {
+				id++
+			}
+			run(listStep)
+			putSource(3)
+			run(installStep) // downgrade: refused without overwrite
+			putSource(7)
+			run(installStep) // equal version: refused without overwrite
+			run(uninstallStep)
+			run(listStep)
+			putSource(9)
+			run(installStep) // fresh again, neighbours still there
+			run(listStep)
+			os.RemoveAll(wd.real(srcDir))
+			wd.dirty, wd.cur = true, nil
+		})
+	}
+	for k, sh := range []struct {
+		kind         int
+		fromFile, ow bool
+	}{{0, true, false}, {0, false, true}, {1, true, true}, {2, false, false}, {3, true, false}, {0, false, false}} {
+		siblingHistory(1+k%4, (k/2)%2, sh.fromFile, sh.ow, sh.kind)
 	}
 
 	// interleave
@@ -1425,10 +1674,10 @@ func listWithDeadline(ctx context.Context, mgr *plugin.CLIManager, root string) 
 // ---- end-to-end verification ----
 
 type verifyKit struct {
-	chain  Chain
-	store  *MockStore
-	desc   ocispec.Descriptor
-	policy *trustpolicy.OCIDocument
+	chain   Chain
+	store   *MockStore
+	desc    ocispec.Descriptor
+	policy  *trustpolicy.OCIDocument
 	policyU *trustpolicy.OCIDocument // the signing chain's root is not in its trust store
 }
 
